@@ -10,10 +10,31 @@ TB = ("Trusted: Coq 8.16.1 kernel + VM, extraction (ExtrOcamlBasic only), OCaml 
       "The model is hand-written; its tie to /repo is the behavioural correspondence run on every check (sampling + finite enumerations), not a proof about the Rust source.")
 
 CLAIMS = {
+    "C01": dict(
+        text="Proved in Coq for ALL component lists and operators: the code-shaped three-branch dewey_cmp equals zero-padded position-by-position comparison followed by the revision (C01_cmp_is_padded_lex, C01_lexpad_is_decl); for all strings with digit runs <= 18 the code's tokeniser equals the table-driven reading of the property (C01_tokens_follow_table), and its verdicts equal the property's own reading (alphabet rank) outside the class letter_conflict (C01_verdict_outside_known); inside that class the faithful model provably differs (C01_letter_weight_refuted) - known finding KF-C01-rank. best_match is proved to use the same comparison. Every run compares Dewey/Pattern/best_match of the real crate with the extracted model and with the executable spec on generated pairs (ties and near-ties dominate).",
+        ref="§7 C01, §8 D1/D2", note=TB + " Known finding KF-C01-rank is suppressed only when the pair lies in the Coq-defined class AND the implementation still equals the faithful model.",
+        technique="Coq proof (model = table spec, padded-lex theorem) + executable-spec differential correspondence"),
+    "C02": dict(
+        text="Coq theorems: Dewey::new on base++op++bound (one or two bounds, empty bounds, adjacent operators) yields exactly base, operators and tokenised bounds, rejects wrong operator order, no operator and > 2 operators, and never panics (all slices proved in range for EVERY string); matches_iff characterises a match as 'text before the LAST - equals base and every bound holds'; no '-' never matches; for brace-free patterns Pattern and Dewey agree (through the proved inertness of the fast reject). Correspondence: pattern/name grids through both entry points each run; Dewey-vs-Pattern agreement is also checked on the implementation's own outputs.",
+        ref="§7 C02", note=TB, technique="Coq proof + model/implementation differential correspondence"),
     "C03": dict(
         text="Coq theorems (closed under the global context) prove trichotomy, the two dualities, reflexivity, argument-swap and transitivity for the model of dewey_cmp over ALL component lists and revisions (hence all strings, whatever the tokeniser does), that a two-bound match is the conjunction of its halves, and that the API verdict of 'base OP B' on 'base-A' is that comparison. The model is tied to the crate on every run by comparing Dewey::new(..).matches(..) with the extracted model on generated triples (all 4 operators, both placements) and the laws are re-evaluated on the implementation's own verdicts.",
         ref="§7 C03", note=TB + " Versions containing '-', '<', '>' or a leading '=' change the pattern/name structure and are outside the property.",
         technique="Coq proof (induction on padded component lists) + model/implementation differential correspondence + law oracle on implementation outputs"),
+    "C04": dict(
+        text="Coq theorems for ALL strings, depths and group counts: a pattern with a brace compiles iff its braces balance; a string balances iff it is the print of a well-formed pattern tree; and for every accepted string Pattern::new+matches equals existsb over the csh expansion of that tree of 'matches as a pattern in its own right' (sound AND complete: C04_sound_complete, C04_api), with the recursion fuel (= number of '{') proved sufficient. Proof route: string-level rewriting of the right-most group = tree-level step that preserves the expansion set. Correspondence each run: generated trees printed to strings, implementation vs model vs the executable spec, with cross-pairing names aimed at the old every-'{' loop.",
+        ref="§7 C04, §8 D4", note=TB, technique="Coq proof (mutual induction on pattern trees, refinement string-step = tree-step) + executable-spec differential correspondence"),
+    "C05": dict(
+        text="Coq theorems: the glob crate's matcher model (three-valued result, Entire short-cut, star loop) decides exactly the declarative whole-string glob relation for every token list without '**' and every name; dispatch theorems (glob / plain) for all brace-free operator-free patterns; the first-two-characters fast reject is proved inert for plain, dewey, glob AND alternate patterns for all names (incl. length 0 and 1). Correspondence each run: token-grammar globs (sets, negated sets, ranges, ']' first, lone ']', '**', '***', unclosed '['), names sampled from the pattern, edits at index 0/1, short names.",
+        ref="§7 C05", note=TB + " glob 0.3.1 Pattern::new/matches (default options) is modelled in Pattern.v and tied by correspondence only.",
+        technique="Coq proof (joint induction complete/Entire) + model/implementation differential correspondence"),
+    "C06": dict(
+        text="Coq theorems: best_match's answer is None iff neither matches, else a matching argument such that no matching candidate is strictly better under (higher dewey version, then byte-wise smaller name); argument order is irrelevant; the both-match choice is the minimum of a total order (antisymmetry, transitivity proved from C03), so pairwise reduction over ANY tree is invariant under every permutation and association of the candidates (C06_reduce_any_tree) and returns a best matching candidate (C06_reduction_winner). Correspondence each run: every ordered pair of candidate lists through best_match vs the model; permutations / folds recomputed from the implementation's own pairwise answers.",
+        ref="§7 C06", note=TB, technique="Coq proof (total order + associativity/commutativity, Permutation) + differential correspondence + law oracle"),
+    "C18": dict(
+        text="Coq theorems for all strings: with a '-' base ++ '-' ++ version rebuilds the name and the version has no '-'; without, the whole string is the base; for EVERY prefix p a version p++'nb'++digits has PkgName revision nbval(digits) and the version comparison's revision is the same number (no token of the tokeniser can straddle the final nb); no 'nb' -> None. Correspondence each run: PkgName::new vs model on structured names, plus probes of the matcher's revision through 'base>=VERnbK' patterns.",
+        ref="§7 C18", note=TB + " The pkg_summary pkgbase()/pkgversion() half is covered with the Summary model (C07/C08) when built.",
+        technique="Coq proof (strong induction over token boundaries) + model/implementation differential correspondence"),
 }
 
 PENDING = {}
